@@ -7,6 +7,9 @@ use shuttle::sync::{Mutex, MutexGuard, RwLock, RwLockReadGuard, RwLockWriteGuard
 pub enum LockOp {
     /// catch_unwind(|| { let _g = m.lock(); panic!() }): the guard is released by a panicking holder
     MPanicHolding(usize),
+    /// panic (caught) while holding the write / read guard of RwLock i
+    RPanicHoldingW(usize),
+    RPanicHoldingR(usize),
     MLock(usize),
     MTry(usize),
     MSet(usize, u32),
@@ -56,6 +59,11 @@ pub struct MRw {
     readers: Vec<usize>, // sorted
     writer: Option<usize>,
     data: u32,
+    /// a writer panicked while holding it (std: only writers poison)
+    poisoned: bool,
+    /// some guard was dropped by a panicking holder (the implementation closes its semaphore then;
+    /// only the weakened model looks at this)
+    closed: bool,
 }
 #[derive(Clone, Debug, PartialEq, Eq, Hash)]
 pub struct LockM {
@@ -104,6 +112,27 @@ impl Family for LockFam {
                             Err(p) => p.into_inner(),
                         };
                         std::panic::resume_unwind(Box::new("vx: panic while holding the lock"));
+                    }));
+                    assert!(r.is_err());
+                    LockRes::Unit
+                }
+                LockOp::RPanicHoldingW(i) | LockOp::RPanicHoldingR(i) => {
+                    let rw = ext(&o.r[*i]);
+                    let write = matches!(op, LockOp::RPanicHoldingW(_));
+                    let r = std::panic::catch_unwind(std::panic::AssertUnwindSafe(|| {
+                        if write {
+                            let _g = match rw.write() {
+                                Ok(g) => g,
+                                Err(p) => p.into_inner(),
+                            };
+                            std::panic::resume_unwind(Box::new("vx: panic while holding the write guard"));
+                        } else {
+                            let _g = match rw.read() {
+                                Ok(g) => g,
+                                Err(p) => p.into_inner(),
+                            };
+                            std::panic::resume_unwind(Box::new("vx: panic while holding the read guard"));
+                        }
                     }));
                     assert!(r.is_err());
                     LockRes::Unit
@@ -232,6 +261,7 @@ impl Family for LockFam {
     fn objects_of(op: &LockOp) -> Vec<u32> {
         match op {
             LockOp::MPanicHolding(i) | LockOp::MLock(i) | LockOp::MTry(i) | LockOp::MSet(i, _) | LockOp::MUnlock(i) => vec![0x100 + *i as u32],
+            LockOp::RPanicHoldingW(i) | LockOp::RPanicHoldingR(i) => vec![0x200 + *i as u32],
             LockOp::RRead(i) | LockOp::RTryRead(i) | LockOp::RWrite(i) | LockOp::RTryWrite(i) | LockOp::RSet(i, _) | LockOp::RUnlockR(i) | LockOp::RUnlockW(i) => vec![0x200 + *i as u32],
         }
     }
@@ -286,6 +316,8 @@ impl Family for LockFam {
                     readers: vec![],
                     writer: None,
                     data: 0,
+                    poisoned: false,
+                    closed: false,
                 })
                 .collect(),
         }
@@ -294,6 +326,8 @@ impl Family for LockFam {
     fn weakening(cfg: &LockCfg) -> Option<&'static str> {
         if cfg.mutexes > 0 {
             Some("poisoned-mutex-does-not-exclude")
+        } else if cfg.rwlocks > 0 {
+            Some("rwlock-does-not-exclude-after-a-panicking-holder")
         } else {
             None
         }
@@ -357,16 +391,51 @@ impl Family for LockFam {
                 n.m[*i].holder = None;
                 vec![MStep::Done(n, LockRes::Unit)]
             }
+            LockOp::RPanicHoldingW(i) | LockOp::RPanicHoldingR(i) => {
+                let write = matches!(op, LockOp::RPanicHoldingW(_));
+                let x = &mut n.r[*i];
+                if _phase == 0 {
+                    let free = if write { x.writer.is_none() && x.readers.is_empty() } else { x.writer.is_none() };
+                    if free {
+                        if write {
+                            x.writer = Some(t);
+                        } else {
+                            x.readers.push(t);
+                            x.readers.sort();
+                        }
+                        vec![MStep::Cont(n, 1)]
+                    } else if weak() && x.closed {
+                        vec![MStep::Panic("resumed a waiting".into())]
+                    } else {
+                        vec![]
+                    }
+                } else {
+                    // released by a panicking holder; only a writer poisons (std)
+                    if write {
+                        x.writer = None;
+                        x.poisoned = true;
+                    } else {
+                        let pos = x.readers.iter().position(|r| *r == t).expect("model: panicking reader");
+                        x.readers.remove(pos);
+                    }
+                    x.closed = true;
+                    vec![MStep::Done(n, LockRes::Unit)]
+                }
+            }
             LockOp::RRead(i) => {
                 let x = &mut n.r[*i];
-                if x.writer == Some(t) || x.readers.contains(&t) {
+                if (x.writer == Some(t) || x.readers.contains(&t)) && !x.closed {
                     return vec![MStep::Panic("tried to acquire a RwLock it already holds".into())];
                 }
                 if x.writer.is_none() {
                     x.readers.push(t);
                     x.readers.sort();
-                    let v = x.data;
-                    vec![MStep::Done(n, LockRes::Locked(v, false))]
+                    let (v, p) = (x.data, x.poisoned);
+                    vec![MStep::Done(n, LockRes::Locked(v, p))]
+                } else if weak() && x.closed {
+                    // recorded finding: once a panicking holder has released the lock (semaphore
+                    // closed) `read`/`write` no longer wait; the runtime trips over its bookkeeping
+                    vec![MStep::Panic("resumed a waiting".into())]
                 } else {
                     vec![]
                 }
@@ -377,21 +446,23 @@ impl Family for LockFam {
                 if x.writer.is_none() && !x.readers.contains(&t) {
                     x.readers.push(t);
                     x.readers.sort();
-                    let v = x.data;
-                    vec![MStep::Done(n, LockRes::Locked(v, false))]
+                    let (v, p) = (x.data, x.poisoned);
+                    vec![MStep::Done(n, LockRes::Locked(v, p))]
                 } else {
                     vec![MStep::Done(n, LockRes::WouldBlock)]
                 }
             }
             LockOp::RWrite(i) => {
                 let x = &mut n.r[*i];
-                if x.writer == Some(t) || x.readers.contains(&t) {
+                if (x.writer == Some(t) || x.readers.contains(&t)) && !x.closed {
                     return vec![MStep::Panic("tried to acquire a RwLock it already holds".into())];
                 }
                 if x.writer.is_none() && x.readers.is_empty() {
                     x.writer = Some(t);
-                    let v = x.data;
-                    vec![MStep::Done(n, LockRes::Locked(v, false))]
+                    let (v, p) = (x.data, x.poisoned);
+                    vec![MStep::Done(n, LockRes::Locked(v, p))]
+                } else if weak() && x.closed {
+                    vec![MStep::Panic("resumed a waiting".into())]
                 } else {
                     vec![]
                 }
@@ -400,8 +471,8 @@ impl Family for LockFam {
                 let x = &mut n.r[*i];
                 if x.writer.is_none() && x.readers.is_empty() {
                     x.writer = Some(t);
-                    let v = x.data;
-                    vec![MStep::Done(n, LockRes::Locked(v, false))]
+                    let (v, p) = (x.data, x.poisoned);
+                    vec![MStep::Done(n, LockRes::Locked(v, p))]
                 } else {
                     vec![MStep::Done(n, LockRes::WouldBlock)]
                 }
@@ -624,6 +695,39 @@ fn poison_programs() -> Vec<Program<LockFam>> {
             g(&[MLock(0), MUnlock(0)]),
         ],
     });
+    // --- RwLock: a panicking writer poisons, a panicking reader does not --------------------------
+    let rcfg = LockCfg { mutexes: 0, rwlocks: 1 };
+    for pan in [RPanicHoldingW(0), RPanicHoldingR(0)] {
+        // the panicking holder ran in thread 1 and was joined; then main uses the lock
+        for tail in [
+            vec![RRead(0), RUnlockR(0)],
+            vec![RWrite(0), RSet(0, 5), RUnlockW(0), RRead(0), RUnlockR(0)],
+            vec![RTryRead(0)],
+            vec![RTryWrite(0)],
+        ] {
+            let mut main = vec![GOp::Spawn(1), GOp::Join(1)];
+            main.extend(g(&tail));
+            out.push(Program {
+                cfg: rcfg.clone(),
+                threads: vec![main, g(&[pan.clone()])],
+            });
+        }
+        // two users of the lock after the panic (exclusion must survive)
+        for (a, b) in [
+            (vec![RWrite(0), RSet(0, 1), RUnlockW(0)], vec![RRead(0), RUnlockR(0)]),
+            (vec![RWrite(0), RSet(0, 1), RUnlockW(0)], vec![RWrite(0), RUnlockW(0)]),
+            (vec![RRead(0), RUnlockR(0)], vec![RRead(0), RUnlockR(0)]),
+            (vec![RWrite(0), RUnlockW(0)], vec![RTryRead(0)]),
+            (vec![RRead(0), RUnlockR(0)], vec![RTryWrite(0)]),
+        ] {
+            let mut m = g(&[pan.clone()]);
+            m.extend(vec![GOp::Spawn(1), GOp::Spawn(2), GOp::Join(1), GOp::Join(2)]);
+            out.push(Program {
+                cfg: rcfg.clone(),
+                threads: vec![m, g(&a), g(&b)],
+            });
+        }
+    }
     out
 }
 
